@@ -9,7 +9,7 @@ total.  `stepTbl` is what one ballot line does to the pair (ballot list, multipl
 parsers; under autocorrect it keeps `keys = ballots`, duplicate-free.
 -/
 namespace PrefVerif.C16
-open PrefVerif PrefVerif.Py PrefVerif.Spec PrefVerif.IOL
+open PrefVerif PrefVerif.Py PrefVerif.Spec PrefVerif.IOL PrefVerif.IOLw
 
 variable {β : Type} [BEq β] [LawfulBEq β]
 
